@@ -12,6 +12,8 @@ LEVEL_NOTE = ("theorems: a successful put takes two names that were free and fra
               "two successive puts own distinct names; shutil.move's move-into-directory branch is unreachable when the "
               "destination is free; the first 100 suffixes are distinct. Concurrency: protocol-level theorem in "
               "Props/C04Par.lean (one system call = one atomic step)")
+RULE_SWEEP = ("; directed: one preemption of process 0 at each of its first 70 steps (another process then runs from start to "
+              "end) for the scenarios collision / first use / a directory that contains the shared --trash-dir")
 RULE = ("seeded random put worlds whose candidate trash directories are pre-populated with 0-120 entries named like the "
         "arguments (pairs, infos without payload, payloads without info incl. dangling symlinks, files vs directories), "
         "with scripted random suffixes beyond the 100th collision")
